@@ -664,6 +664,9 @@ func (g *c02gen) pairs(o string, k, yk *bkind, nx, ny int) []string {
 	if len(cy) > 9 {
 		cy = cy[:9]
 	}
+	if g.quick && len(cy) > 6 {
+		cy = cy[:6]
+	}
 	for _, x := range cx {
 		for _, y := range cy {
 			add(x, y)
@@ -783,7 +786,7 @@ func c02gen1(r *rand.Rand, tier string, emit func(string)) {
 					if g.quick && ci >= 3 {
 						// quick: the shortcut-prone constants on every place, the others on a rotating third
 						g.rot++
-						if g.rot%3 != 0 {
+						if g.rot%4 != 0 {
 							continue
 						}
 					}
